@@ -2,7 +2,8 @@
 the value as laid out in this process (sets/frozensets in iteration order) and its redun value hash.
 
 stdin : one JSON document per line  {"id": <str>, "spec": <spec>}
-stdout: one line per spec           <id> TAB <laid-out value text> TAB <hash | !ErrorName>
+stdout: one line per spec           <id> TAB <laid-out value text> TAB get_hash(v) TAB get_hash(data=serialize()) TAB
+        backend.record_value(v) TAB Argument.value_hash TAB CallNode.value_hash of a real call ident(v) ("-" unless "sched")
 spec  : ["N"] ["T"] ["F"] ["i", n] ["s", str] ["b", hex] ["L", [..]] ["U", [..]] ["D", [[k, v], ..]]
         ["S", [..]] (elements are inserted in this order) ["FS", [..]] ["O", cls, [..]]
 argv  : <repo path>
@@ -91,11 +92,30 @@ def text(v):
     raise TypeError(t)
 
 
+def err(e):
+    return "!" + type(e).__name__
+
+
 def main():
     repo = sys.argv[1]
     sys.path.insert(0, repo)
+    import logging
+
+    from redun import Scheduler, task
+    from redun.backends.db import Argument, CallNode, Job, RedunBackendDb
+    from redun.config import Config
     from redun.value import get_type_registry
+    logging.getLogger("redun").setLevel(logging.ERROR)
     reg = get_type_registry()
+    backend = RedunBackendDb(db_uri="sqlite:///:memory:")
+    backend.load()
+
+    @task(name="c16_ident", namespace="verif_c16", cache=False)
+    def ident(x):
+        return x
+
+    sched = None
+    seen_jobs = set()
     out = []
     for line in sys.stdin:
         line = line.strip()
@@ -103,11 +123,40 @@ def main():
             continue
         doc = json.loads(line)
         v = build(doc["spec"])
-        try:
-            h = reg.get_hash(v)
+        layout = text(v)
+        try:                                    # TypeRegistry.get_hash(value)
+            h0 = reg.get_hash(v)
         except Exception as e:  # noqa: BLE001
-            h = "!" + type(e).__name__
-        out.append("%s\t%s\t%s" % (doc["id"], text(v), h))
+            h0 = err(e)
+        try:                                    # the value interface with the caller's serialisation
+            vi = reg.get_value(v)
+            h1 = vi.get_hash(data=vi.serialize())
+        except Exception as e:  # noqa: BLE001
+            h1 = err(e)
+        try:                                    # what a real backend stores
+            h2 = backend.record_value(v)
+        except Exception as e:  # noqa: BLE001
+            h2 = err(e)
+        arg = res = "-"
+        if doc.get("sched"):                    # a real task call: recorded argument and result hashes
+            try:
+                if sched is None:
+                    sched = Scheduler(config=Config({"backend": {"db_uri": "sqlite:///:memory:"}}))
+                    sched.load()
+                sched.run(ident(v))
+                session = sched.backend.session
+                jobs = [j for j in session.query(Job).filter(Job.task_hash == ident.hash).all() if j.id not in seen_jobs]
+                seen_jobs.update(j.id for j in jobs)
+                (job,) = jobs
+                node = session.query(CallNode).filter(CallNode.call_hash == job.call_hash).one()
+                res = node.value_hash
+                (a,) = session.query(Argument).filter(Argument.call_hash == job.call_hash).all()
+                arg = a.value_hash
+            except Exception as e:  # noqa: BLE001
+                arg = res = err(e)
+        if text(v) != layout:
+            layout = "!layout-changed"
+        out.append("\t".join([doc["id"], layout, h0, h1, h2, arg, res]))
     sys.stdout.write("\n".join(out) + "\n")
 
 
